@@ -99,16 +99,28 @@ package mocker
 // variadic tail (if any) as one slice Value in the last position; for methods the receiver first.
 
 //@ pure func call_args_ok(args []reflect.Value, isMethod bool, isVariadic bool) bool = arr(args) != textref && len(args) < 0x10000
-//@   | && (forall i int :: 0 <= i && i < len(args) ==> rv_valid(args[i]) && !rv_addressable(args[i]))
-//@   | && (isMethod ==> len(args) >= 1) && (isVariadic ==> len(args) >= ite(isMethod, int(2), int(1)) && rv_kind(args[len(args) - 1]) == reflect.Slice)
+//@   | && (isMethod ==> len(args) >= 1) && (isVariadic ==> len(args) >= ite(isMethod, int(2), int(1)) && rv_kind(args[len(args) - 1]) == reflect.Slice && rv_valid(args[len(args) - 1]) && !rv_addressable(args[len(args) - 1]))
+
+//@ pure func all_valid(a []reflect.Value, n int) bool = forall j int :: 0 <= j && j < n ==> rv_valid(a[j])
 
 //@ func (c *DefaultMatcher) Match
 //@   props C04
-//@   requires receiver: c != nil && arr(c.exprs) != textref && forall i int :: 0 <= i && i < len(c.exprs) ==> c.exprs[i] != nil
+//@   requires receiver: c != nil && arr(c.exprs) != textref && len(c.exprs) < 0x10000 && forall i int :: 0 <= i && i < len(c.exprs) ==> c.exprs[i] != nil
 //@   requires args_as_delivered: call_args_ok(args, c.isMethod, c.isVariadic)
-//@   requires values_are_plain: forall v reflect.Value :: rv_valid(v) && rv_kind(v) == reflect.Slice ==> rv_kind(value_of(rv_iface(v))) == reflect.Slice && rv_len(value_of(rv_iface(v))) == rv_len(v) && rv_len(v) < 0x10000
+//@   requires tail_is_a_plain_slice: c.isVariadic ==> rv_iface(args[len(args) - 1]) != nil && rv_kind(value_of(rv_iface(args[len(args) - 1]))) == reflect.Slice && 0 <= rv_len(value_of(rv_iface(args[len(args) - 1]))) && rv_len(value_of(rv_iface(args[len(args) - 1]))) < 0x10000
 //@   assigns nothing
-//@   invariant loop 1 expanding: true
-//@   invariant loop 2 elements: true
-//@   invariant loop 3 evaluating: true
-//@   ensures decided: true
+//@   invariant loop 1 counting: 0 <= i && i <= rv_len(rv) && rv_kind(rv) == reflect.Slice && rv_len(rv) < 0x10000 && len(expandArgs) == last + i && last < 0x10000 && 0 <= last
+//@   invariant loop 1 expanded_so_far: (forall k int :: 0 <= k && k < last ==> expandArgs[k] == args[k]) && (forall j int :: 0 <= j && j < i ==> expandArgs[last + j] == rv_index(rv, j))
+//@     | && last == len(args) - 1 && rv == value_of(rv_iface(args[last])) && arr(args) != textref && alive(arr(args))
+//@   invariant loop 1 writes_fresh_only: elems_unchanged_since_entry(reflect.Value) && fresh(expandArgs)
+//@   invariant loop 1 receiver_kept: c != nil && arr(c.exprs) != textref && len(c.exprs) < 0x10000 && (forall k int :: 0 <= k && k < len(c.exprs) ==> c.exprs[k] != nil)
+//@   decreases loop 1 rv_len(rv) - i
+//@   invariant loop 2 all_accepted_so_far: forall k int :: 0 <= k && k <= rangeindex ==> arg.expr_accepts(c.exprs[k], args[k])
+//@   invariant loop 2 evaluating: -1 <= rangeindex && rangeindex < len(c.exprs) && len(args) == len(c.exprs) && c != nil && arr(c.exprs) != textref
+//@     | && (forall k int :: 0 <= k && k < len(c.exprs) ==> c.exprs[k] != nil) && arr(args) != textref && elems_unchanged_since_entry(reflect.Value) && elems_unchanged_in_loop(reflect.Value)
+//@   decreases loop 2 len(c.exprs) - rangeindex
+//@   ensures fixed_arity_all_expressions_accept: !c.isVariadic ==> result == (len(args) - ite(c.isMethod, int(1), int(0)) == len(c.exprs)
+//@     | && forall k int :: 0 <= k && k < len(c.exprs) ==> arg.expr_accepts(c.exprs[k], args[k + ite(c.isMethod, int(1), int(0))]))
+//@   ensures[C04,slow] variadic_fixed_part_by_position: c.isVariadic && result ==> forall k int :: 0 <= k && k < len(args) - 1 - ite(c.isMethod, int(1), int(0)) ==> arg.expr_accepts(c.exprs[k], args[k + ite(c.isMethod, int(1), int(0))])
+//@   ensures[C04,slow] variadic_tail_element_by_element: c.isVariadic && result ==> len(c.exprs) == len(args) - 1 - ite(c.isMethod, int(1), int(0)) + rv_len(value_of(rv_iface(args[len(args) - 1])))
+//@     | && forall j int :: 0 <= j && j < rv_len(value_of(rv_iface(args[len(args) - 1]))) ==> arg.expr_accepts(c.exprs[len(args) - 1 - ite(c.isMethod, int(1), int(0)) + j], rv_index(value_of(rv_iface(args[len(args) - 1])), j))
